@@ -22,7 +22,8 @@ CONSTANTS Names,     \* element names, e.g. {"a","b"}
           Times,     \* modification times for Chtimes (strings "T1", ...; "*" = unspecified)
           RootOps,   \* TRUE: also Remove/Rename/RemoveAll touching "."
           MaxTreeDepth, \* bound of the model: deepest entry kept in a tree
-          MaxNodes   \* bound of the model: number of non-root entries
+          MaxNodes,  \* bound of the model: number of non-root entries
+          FlagSets   \* "all": all 48 OpenFile flag sets; "few": a representative handful
 
 VARIABLE tree
 
@@ -186,9 +187,13 @@ NoFlag == Flag("RO", FALSE, FALSE, FALSE, FALSE)
 C(op, p, q, f, perm, d, mt) ==
   [op |-> op, p |-> p, q |-> q, f |-> f, perm |-> perm, d |-> d, mt |-> mt]
 P0 == CHOOSE x \in Perms : TRUE
-Flags == { Flag(acc, c, x, tr, ap) :
-             acc \in {"RO", "WO", "RW"}, c \in BOOLEAN, x \in BOOLEAN,
-             tr \in BOOLEAN, ap \in BOOLEAN }
+AllFlags == { Flag(acc, c, x, tr, ap) :
+                acc \in {"RO", "WO", "RW"}, c \in BOOLEAN, x \in BOOLEAN,
+                tr \in BOOLEAN, ap \in BOOLEAN }
+FewFlags == { Flag("RO", FALSE, FALSE, FALSE, FALSE), Flag("WO", TRUE, FALSE, FALSE, FALSE),
+              Flag("RW", TRUE, TRUE, FALSE, FALSE), Flag("WO", FALSE, FALSE, TRUE, FALSE),
+              Flag("RW", TRUE, FALSE, TRUE, TRUE) }
+Flags == IF FlagSets = "all" THEN AllFlags ELSE FewFlags
 RootFree(p) == RootOps \/ p # Root
 Calls ==
        { C("mkdir", p, Root, NoFlag, perm, << >>, "") : p \in ArgPaths, perm \in Perms }
